@@ -148,7 +148,7 @@ func genC17(rt *rapid.T, knownCookie bool, col *Collector) c17Case {
 	n := rapid.IntRange(0, 8).Draw(rt, "nsteps")
 	for i := 0; i < n; i++ {
 		c.Steps = append(c.Steps, c17Step{
-			Kind:   rapid.SampledFrom([]string{"poll", "poll", "post", "post", "preflight"}).Draw(rt, "kind"),
+			Kind:   rapid.SampledFrom([]string{"poll", "poll", "post", "post", "preflight", "postClose"}).Draw(rt, "kind"),
 			Sess:   rapid.IntRange(0, nsess-1).Draw(rt, "sess"),
 			Origin: rapid.SampledFrom([]string{"", "ok", "re", "bad"}).Draw(rt, "origin"),
 		})
@@ -300,8 +300,12 @@ func runC17(c c17Case) (fail string, stats map[string]bool) {
 		return ""
 	}
 
+	closedSess := map[int]bool{}
 	for i, st := range c.Steps {
 		what := fmt.Sprintf("step %d %+v", i, st)
+		if closedSess[st.Sess] && st.Kind != "handshake" {
+			continue
+		}
 		hdr := http.Header{}
 		if st.Origin != "" {
 			hdr.Set("Origin", originValue(st.Origin))
@@ -342,6 +346,36 @@ func runC17(c c17Case) (fail string, stats map[string]bool) {
 			if f := checkResponse(what, st, ex, pc, false, pc.Sid); f != "" {
 				return f, stats
 			}
+		case "postClose":
+			// the client ends the session with a close packet: the response to that request (and to a
+			// poll still pending) is a response of the session like any other
+			pc := sess[st.Sess]
+			if pc == nil || pc.Closed {
+				continue
+			}
+			pc.O.Extra = hdr
+			var pending *Exchange
+			if i%2 == 0 && pc.Poll == nil {
+				pending = pc.StartPoll()
+				Settle()
+			}
+			ex := pc.StartPost([]Pkt{msgT("bye"), ctl(tClose)}, false)
+			Settle()
+			pc.Closed = true
+			stats["response-after-close"] = true
+			if f := checkResponse(what, st, ex, pc, false, pc.Sid); f != "" {
+				return f, stats
+			}
+			if pending != nil {
+				if !pending.Snap().Responded {
+					return fmt.Sprintf("%s: the poll pending when the session closed was never answered", what), stats
+				}
+				if f := checkResponse(what+" (pending poll released by the close)", st, pending, pc, false, pc.Sid); f != "" {
+					return f, stats
+				}
+			}
+			delete(sess, st.Sess)
+			closedSess[st.Sess] = true
 		case "post":
 			pc := sess[st.Sess]
 			pc.O.Extra = hdr
@@ -403,7 +437,7 @@ func runC17(c c17Case) (fail string, stats map[string]bool) {
 		}
 		// the session must still be alive (nothing here is a close cause)
 		for k, pc := range sess {
-			if sr := w.Get(pc.Sid); sr != nil && len(sr.Closes) > 0 && !(c.Cors.Set && c.Cors.PreflightContinue) {
+			if sr := w.Get(pc.Sid); sr != nil && len(sr.Closes) > 0 && !(c.Cors.Set && c.Cors.PreflightContinue) && !closedSess[k] {
 				return fmt.Sprintf("%s: session %d closed: %v", what, k, sr.Closes), stats
 			}
 		}
@@ -452,7 +486,7 @@ func TestC17Headers(t *testing.T) {
 			rt.Fatalf("%v: %s", c, clipStr(res.Leak, 1500))
 		}
 	})
-	req := []string{"request-after-handshake", "cors-response", "non-string-origin-policy", "preflight", "preflight-continue", "compressed-poll"}
+	req := []string{"request-after-handshake", "response-after-close", "cors-response", "non-string-origin-policy", "preflight", "preflight-continue", "compressed-poll"}
 	if !known {
 		req = append(req, "cookie-on-handshake")
 	}
